@@ -428,3 +428,58 @@ func okRDelete[K comparable, V any](r, a, b, c, x node.Node[K, V], m, i int) boo
 //@   requires i <= 3
 //@   modifies *
 //@   ensures [bounded:delete-unlinks-exactly-that-timer] okRDelete(r, a, b, c, x, m, i)
+
+// ---------------------------------------------------------------------------------------------
+// Unbounded proofs of the ring's pointer code (for rings of every size). The real link / unlink / Variable.Delete
+// are executed (`bodies`: the assumed contracts of this package are switched off) from an arbitrary heap in which the
+// nodes they touch are consistently linked; the postconditions give the exact new links and say that the consistency
+// of every other node (an arbitrary mstar) is kept. What stays assumed in A-ring is only that the abstract
+// relation ghost_inWheel(n) means "n.NextExp() != nil", and what the sweep's traversal needs (reachability).
+// ---------------------------------------------------------------------------------------------
+
+// ringOK(m): m is unscheduled (both links nil) or its two neighbours point back at it
+func ringOK[K comparable, V any](m node.Node[K, V]) bool {
+	nx, pv := m.NextExp(), m.PrevExp()
+	if nx == nil {
+		return pv == nil
+	}
+	return pv != nil && nx.PrevExp() == m && pv.NextExp() == m
+}
+
+func pLink[K comparable, V any](root, n node.Node[K, V])             { link(root, n) }
+func pUnlink[K comparable, V any](n node.Node[K, V])                   { unlink(n) }
+func pDelete[K comparable, V any](v *Variable[K, V], n node.Node[K, V]) { v.Delete(n) }
+
+//@ func pLink : C13 C05
+//@   bodies
+//@   var mstar node.Node[K, V]
+//@   requires ghost_hasExpLinks() && root != nil && n != nil && mstar != nil
+//@   requires [the-bucket-ring-is-consistent-at-its-root] root.NextExp() != nil && ringOK(root) && ringOK(root.PrevExp())
+//@   requires [the-timer-is-unscheduled] n.NextExp() == nil && n.PrevExp() == nil
+//@   modifies node::prevExp, node::nextExp
+//@   ensures [C13:linked-at-the-tail-of-its-bucket] n.NextExp() == root && root.PrevExp() == n && n.PrevExp() == pre(root.PrevExp()) && pre(root.PrevExp()).NextExp() == n
+//@   ensures [C05:scheduled-and-consistent] n.NextExp() != nil && ringOK(n) && ringOK(root)
+//@   ensures [C05:every-other-timer-stays-consistently-linked] pre(ringOK(mstar)) ==> ringOK(mstar)
+//@   ensures [C05:no-other-timer-is-scheduled-or-unscheduled] mstar != n ==> (mstar.NextExp() != nil) == pre(mstar.NextExp() != nil)
+
+//@ func pUnlink : C13 C05
+//@   bodies
+//@   var mstar node.Node[K, V]
+//@   requires ghost_hasExpLinks() && n != nil && mstar != nil && ringOK(n)
+//@   requires [neighbours-consistent] n.NextExp() != nil ==> ringOK(n.NextExp()) && ringOK(n.PrevExp())
+//@   modifies node::prevExp, node::nextExp
+//@   ensures [C05:neighbours-are-joined] pre(n.NextExp()) != nil && pre(n.NextExp()) != n ==> pre(n.PrevExp()).NextExp() == pre(n.NextExp()) && pre(n.NextExp()).PrevExp() == pre(n.PrevExp())
+//@   ensures [C05:every-other-timer-stays-consistently-linked] mstar != n && pre(ringOK(mstar)) ==> ringOK(mstar)
+//@   ensures [C05:no-other-timer-is-scheduled-or-unscheduled] mstar != n ==> (mstar.NextExp() != nil) == pre(mstar.NextExp() != nil)
+
+//@ func pDelete : C13 C05
+//@   bodies
+//@   var mstar node.Node[K, V]
+//@   requires ghost_hasExpLinks() && v != nil && n != nil && mstar != nil && ringOK(n)
+//@   requires [neighbours-consistent] n.NextExp() != nil ==> ringOK(n.NextExp()) && ringOK(n.PrevExp())
+//@   requires [not-alone-in-a-ring] n.NextExp() != n
+//@   modifies node::prevExp, node::nextExp
+//@   ensures [C05:unscheduled] n.NextExp() == nil && n.PrevExp() == nil && ringOK(n)
+//@   ensures [C05:neighbours-are-joined] pre(n.NextExp()) != nil ==> pre(n.PrevExp()).NextExp() == pre(n.NextExp()) && pre(n.NextExp()).PrevExp() == pre(n.PrevExp())
+//@   ensures [C05:every-other-timer-stays-consistently-linked] pre(ringOK(mstar)) ==> ringOK(mstar)
+//@   ensures [C05:no-other-timer-is-scheduled-or-unscheduled] mstar != n ==> (mstar.NextExp() != nil) == pre(mstar.NextExp() != nil)
